@@ -186,8 +186,52 @@ func rulesC19(c *Ctx) {
 		"decoded parameters binding": beq(`common/cbor\.Marshal\(.*ConsensusParameters\(.*\)#0\)`, `common/cbor\.Marshal\(\*param:params\.Parameters\)`),
 	})
 	req(pkStateless+".verifyTransactions", map[string]string{
-		"data hash": beq(`github\.com/cometbft/cometbft/types\.\(\*Data\)\.Hash\(alloc:\*github\.com/cometbft/cometbft/types\.Data\)`, LB+`DataHash`),
+		// the hashed value is a Data built in this function, however it is initialised (declared, literal, preallocated)
+		"data hash": beq(`github\.com/cometbft/cometbft/types\.\(\*Data\)\.Hash\((&\(load\()?alloc:\*github\.com/cometbft/cometbft/types\.Data\)*`, LB+`DataHash`),
 	})
+	if fn := c.needFn("C19.verify", pkStateless+".verifyTransactions"); fn != nil {
+		// ... and what it holds comes from the transactions that are being verified, nothing else
+		var bad []string
+		n := 0
+		var check func(v ssa.Value, d int)
+		check = func(v ssa.Value, d int) {
+			if d > 6 {
+				return
+			}
+			switch x := v.(type) {
+			case *ssa.MakeSlice, *ssa.Const:
+				return
+			case *ssa.Phi:
+				for _, e := range x.Edges {
+					check(e, d+1)
+				}
+				return
+			case *ssa.Slice:
+				check(x.X, d+1)
+				return
+			case *ssa.Call:
+				if b, ok := x.Call.Value.(*ssa.Builtin); ok && b.Name() == "append" {
+					for _, a := range x.Call.Args {
+						check(a, d+1)
+					}
+					return
+				}
+			}
+			for _, r := range Roots(v) {
+				switch {
+				case r.Kind == "param" && r.Name == "txs", r.Kind == "const":
+				case r.Kind == "alloc" && (strings.HasSuffix(r.Name, "types.Data") || strings.HasSuffix(r.Name, "types.Tx") || strings.HasPrefix(r.Name, "*[")):
+				default:
+					bad = append(bad, r.String())
+				}
+			}
+		}
+		for _, st := range StoresTo(fn, "", "github.com/cometbft/cometbft/types.Data.Txs").Ins {
+			n++
+			check(st.(*ssa.Store).Val, 0)
+		}
+		c.Check(n > 0 && len(bad) == 0, "C19.verify", fname(fn)+":hashed transactions are the given ones", c.P.Pos(fn.Pos()), "everything stored into the hashed Data.Txs derives from the transactions being verified", "the transaction list that is hashed against DataHash is not built from the transactions being verified only (stores="+itoa(n)+"; other origins: "+strings.Join(uniq(bad), ", ")+")")
+	}
 	if fn := c.needFn("C19.verify", pkStateless+".verifyTransactionProof"); fn != nil {
 		vt := CallsTo(fn, "merkle.VerifyTransaction", "consensus/cometbft/crypto/merkle.VerifyTransaction", "")
 		c.successOnlyVia("C19.verify", fn, vt, "an inclusion proof is accepted only if it verifies")
@@ -353,6 +397,15 @@ func uncoveredFields(fn *ssa.Function, param string, depth int) []string {
 				visit(x, np)
 			case *ssa.UnOp:
 				visit(x, path)
+			case *ssa.Call:
+				// handed to a new helper (ip.go): the helper's reads count
+				if h := helperCallee(x); h != nil && len(x.Call.Args) == len(h.Params) {
+					for i, a := range x.Call.Args {
+						if a == v {
+							visit(h.Params[i], path)
+						}
+					}
+				}
 			}
 		}
 	}
